@@ -54,6 +54,8 @@ def custom_vocab(rng, unknown_ok=None, n_macros=12, n_envs=5, full_cover_index=N
     envs['mathenvb'] = D.M('{', math=True)
     # mode changes given as chained deltas (ParsingStateDeltaChained, with a value-preserving second step and a None)
     envs['mathenvc'] = D.M('', math=True, chained=True)
+    # ... and as the attribute part of a context-extending delta (which also declares a macro for the body)
+    envs['mathenvx'] = D.M('', math=True, extend=True)
     macros['txtc'] = D.M('{', ['text'], chained=True)
     macros['mthc'] = D.M('{{', ['math', None], chained=True)
     macros['sym'] = D.M('')
@@ -129,6 +131,11 @@ def custom_vocab(rng, unknown_ok=None, n_macros=12, n_envs=5, full_cover_index=N
                 kw['body_parsing_state_delta'] = ParsingStateDeltaEnterMathMode()
                 if d.get('chained'):
                     kw['body_parsing_state_delta'] = chain(kw['body_parsing_state_delta'])
+                if d.get('extend'):
+                    from pylatexenc.macrospec import ParsingStateDeltaExtendLatexContextDb
+                    kw['body_parsing_state_delta'] = ParsingStateDeltaExtendLatexContextDb(
+                        extend_latex_context=dict(macros=[MacroSpec('tagx', '{')]),
+                        set_attributes=dict(in_math_mode=True, math_mode_delimiter=None))
             es.append(EnvironmentSpec(n, argspecs(d), **kw))
         for n in VERB_ENVS:
             es.append(EnvironmentSpec(n, '', make_body_parser=_verb_body_parser(n)))
